@@ -117,6 +117,7 @@ func run(r *vrt.Run) {
 		for k, v := range p.Stats {
 			r.Count(k, v)
 		}
+		r.Count("ripemd_touch_survived_revert", p.M.RipemdKept)
 		writes := p.Stats["op.AddBalance"] + p.Stats["op.SetState"] + p.Stats["op.SetNonce"] + p.Stats["op.SetCode"]
 		if writes == 0 {
 			r.Eval("")
